@@ -50,6 +50,29 @@ Theorem C09_pong_after_ping :
 Proof. exact pong_expected. Qed.
 Print Assumptions C09_pong_after_ping.
 
+(* ---- OnCommandRead hook: for ALL states and dispatched commands ---- *)
+
+(* a client error from the hook is answered with exactly that error reply (also for a send,
+   which otherwise has no reply), no application handler runs and the state does not change *)
+Theorem C09_read_hook_error :
+  forall g s c k0 k code,
+    s_closed s = false -> s_unusable s = false -> s_auth s = true -> is_pong c = false ->
+    first_of frame_order c = Some k0 -> first_of handler_order c = Some k ->
+    c_read c = RdErr code -> has KConnect c = false ->
+    handle_command g s c = Some (s, [OIssue (c_id c) true; OReply (c_id c) code], true).
+Proof. exact read_error_command. Qed.
+Print Assumptions C09_read_hook_error.
+
+(* a disconnect from the hook closes with its code, without reply or handler *)
+Theorem C09_read_hook_disconnect :
+  forall g s c k0 k code,
+    s_closed s = false -> s_unusable s = false -> s_auth s = true -> is_pong c = false ->
+    first_of frame_order c = Some k0 -> first_of handler_order c = Some k ->
+    c_read c = RdDisc code ->
+    handle_command g s c = Some (set_closed s, [OIssue (c_id c) (expects c); OClose code], false).
+Proof. exact read_disconnect_command. Qed.
+Print Assumptions C09_read_hook_disconnect.
+
 (* ---- the rules over ALL runs: any sequence of frames (any commands, ids, duplicate
    ids, several request fields, malformed or empty frames), server pings and callback
    completions in any order.  [steps_ok] checks, with the connection state re-derived
@@ -121,12 +144,12 @@ Print Assumptions C09_model_exact_nosend.
 
 (* ---- non-vacuity ---- *)
 Definition ex_cfg := mkCfg [KSubscribe; KRpc; KSend] true.
-Definition ex_connect := LFrame [mkCmd 1 [KConnect] 0 false SOk] false.
+Definition ex_connect := LFrame [mkCmd 1 [KConnect] 0 false SOk RdOk] false.
 
 (* authenticated run with an asynchronous rpc completed after a later synchronous one *)
 Example C09_ex_async :
   exec ex_cfg init [ex_connect;
-                    LFrame [mkCmd 11 [KRpc] 0 false SAsync; mkCmd 2 [KRpc] 0 false SOk] false;
+                    LFrame [mkCmd 11 [KRpc] 0 false SAsync RdOk; mkCmd 2 [KRpc] 0 false SOk RdOk] false;
                     LComplete 0 ROk]
   = Some (mkSt false false true false [] [] 1,
           [[OIssue 1 true; OHandler KConnect 1; OReply 1 0];
@@ -136,12 +159,12 @@ Proof. vm_compute. reflexivity. Qed.
 
 (* gate and pong outcomes are reachable *)
 Example C09_ex_gate :
-  exec ex_cfg init [LFrame [mkCmd 2 [KSubscribe] 1 false SOk] false]
+  exec ex_cfg init [LFrame [mkCmd 2 [KSubscribe] 1 false SOk RdOk] false]
   = Some (mkSt true false false false [] [] 0, [[OIssue 2 true; OClose 3501]]).
 Proof. vm_compute. reflexivity. Qed.
 Example C09_ex_pong :
-  exec ex_cfg init [ex_connect; LPing; LFrame [mkCmd 0 [] 0 false SOk] false;
-                    LFrame [mkCmd 0 [] 0 false SOk] false]
+  exec ex_cfg init [ex_connect; LPing; LFrame [mkCmd 0 [] 0 false SOk RdOk] false;
+                    LFrame [mkCmd 0 [] 0 false SOk RdOk] false]
   = Some (mkSt true false true false [] [] 0,
           [[OIssue 1 true; OHandler KConnect 1; OReply 1 0]; []; [OIssue 0 false];
            [OIssue 0 false; OClose 3501]]).
